@@ -1,0 +1,56 @@
+//go:build verif
+
+// Contracts for the verification machinery in /verif (comment-only file; compiled only with -tags verif).
+package preprocess
+
+//@ -- Ownership contracts (C17, C16). "owns x": the caller passes a graph/block that NilAway allocated itself
+//@ -- (an owned cfg.CFG / cfg.Block has owned Blocks / Nodes / Succs arrays and owned blocks in its block arrays);
+//@ -- "returns-owned": the result is such an object. The AST nodes inside Nodes are never owned.
+
+//@ func copyGraph
+//@ prop C17 C16
+//@ ghost returns-owned
+
+//@ func (*Preprocessor).CFG
+//@ prop C17 C16
+//@ ghost returns-owned
+
+//@ func (*Preprocessor).restructureOnNoReturnCall
+//@ prop C17 C16
+//@ ghost owns block
+
+//@ func (*Preprocessor).splitBlockOnTrustedFuncs
+//@ prop C17 C16
+//@ ghost owns graph
+//@ ghost owns thisBlock
+//@ ghost owns failureBlock
+
+//@ func (*Preprocessor).replaceConditional
+//@ prop C17 C16
+//@ ghost owns graph
+//@ ghost owns block
+
+//@ func (*Preprocessor).canonicalizeConditional
+//@ prop C17 C16
+//@ ghost owns graph
+//@ ghost owns thisBlock
+
+//@ func markRangeStatements
+//@ prop C17 C16
+//@ ghost owns graph
+
+//@ func markSwitchStatements
+//@ prop C17 C16
+//@ ghost owns graph
+
+//@ func (*Preprocessor).markTypeSwitchStatements
+//@ prop C17 C16
+//@ ghost owns graph
+
+//@ func (*Preprocessor).markTypeSwitch
+//@ prop C17 C16
+//@ ghost owns block
+
+//@ func (*Preprocessor).inlineTemplComponentFuncLit
+//@ prop C17 C16
+//@ ghost owns graph
